@@ -187,7 +187,7 @@ class CHECK(vlib.Check):
 
     def gen_cases(self, rng, tier):
         out = []
-        n_rand = 900 if tier == "quick" else 9000
+        n_rand = 500 if tier == "quick" else 8000
         for i in range(n_rand):
             ids = Ids()
             nsend = rng.choice([0, 0, 1, 1, 2, 3])
@@ -196,7 +196,7 @@ class CHECK(vlib.Check):
             seed = "-" if i % 10 == 0 else str(rng.randint(1, 10 ** 9))
             mk = rng.choice(MODES)
             out.append((style, "m=%s,k=%s,n=%d,seed=%s,sch=|%s" % (mk[0], mk[1], 1 + nsend, seed, interleave(rng, progs))))
-        reps = 6 if tier == "quick" else 40
+        reps = 2 if tier == "quick" else 30
         for (n, body) in DIRECTED:
             for mk in MODES:
                 out.append(("directed", "m=%s,k=%s,n=%d,seed=-,sch=|%s" % (mk[0], mk[1], n, body)))
@@ -205,7 +205,7 @@ class CHECK(vlib.Check):
         # exhaustive schedules up to a preemption bound (support for the tie, not the theorem)
         if getattr(self, "_impl", None):
             if tier == "quick":
-                todo = [(n, b, k, 300) for (n, b, k) in EXPLORE_QUICK]
+                todo = [(n, b, k, 120) for (n, b, k) in EXPLORE_QUICK]
             else:
                 todo = [(n, b, 2, 5000) for (n, b) in DIRECTED[:12]] + [(n, b, 3, 5000) for (n, b, _) in EXPLORE_QUICK[:2]]
             if not getattr(self, "_explored", None) or self._explored[0] != tier:
